@@ -60,7 +60,8 @@ class ModelRepository:
     def remove_model(self, model):
         filename = None
         for f, m in self.filename_to_model.items():
-            if m == model:
+            # identity, not equality: a root user class may define __eq__
+            if m is model:
                 filename = f
         if filename:
             # print("*** delete {}".format(filename))
